@@ -291,3 +291,12 @@ V("c13-radius-squared", "fault", "C13", P + "polyhedron.py", "return Sphere(np.s
 V("c13-rw-ge-guard", "rewrite", "C13", P + "polyhedron.py",
   "        if len(self.vertices) > 4 and not np.isclose(resids, 0):\n            raise RuntimeError(\"No circumsphere for this polyhedron.\")",
   "        if len(self.vertices) >= 5 and not np.isclose(resids, 0):\n            raise RuntimeError(\"No circumsphere for this polyhedron.\")")
+
+# ------------------------------------------------------------------------------------------ C14
+V("c14-sphero-drop-mod", "fault", "C14", P + "convex_spheropolygon.py", "        angles = np.mod(angles, 2 * np.pi)\n        num_verts = self.num_vertices", "        num_verts = self.num_vertices", rule="ANG-1")
+V("c14-polygon-drop-mod", "fault", "C14", P + "convex_polygon.py", "        angles = np.mod(angles, 2 * np.pi)\n        num_verts = len(self.vertices)", "        angles = np.asarray(angles)\n        num_verts = len(self.vertices)", rule="ANG-1")
+V("c14-ellipse-degree", "fault", "C14", P + "ellipse.py", "        return np.sqrt(\n            (self.a * self.a + self.b * self.b)", "        return (\n            (self.a * self.a + self.b * self.b)", rule="DEG")
+V("c14-sphero-radius-zero-delegates", "fault", "C14", P + "convex_spheropolygon.py",
+  "        num_verts = self.num_vertices\n        verts = self._polygon.vertices[:, :2] - self._polygon.centroid[:2]\n",
+  "        if self.radius == 0:\n            return ConvexPolygon(self.vertices + 1.0).distance_to_surface(angles)\n        num_verts = self.num_vertices\n        verts = self._polygon.vertices[:, :2] - self._polygon.centroid[:2]\n", rule="FRAME-1")
+V("c14-rw-mod-operator", "rewrite", "C14", P + "convex_spheropolygon.py", "        angles = np.mod(angles, 2 * np.pi)\n        num_verts = self.num_vertices", "        angles = np.remainder(angles, 2 * np.pi)\n        num_verts = self.num_vertices")
